@@ -48,8 +48,20 @@ pub fn c01(opts: &Opts) -> Report {
                 }
                 return;
             }
-            let ops = if i % 50 == 49 { long_input_ops(&mut ctx.rng) } else { gens::pipeline(&mut ctx.rng, 8) };
-            let input = if i % 50 == 49 { long_input(&mut ctx.rng) } else { gens::input_for(&mut ctx.rng, &ops) };
+            let mut ops = if i % 50 == 49 { long_input_ops(&mut ctx.rng) } else { gens::pipeline(&mut ctx.rng, 8) };
+            let mut input = if i % 50 == 49 { long_input(&mut ctx.rng) } else { gens::input_for(&mut ctx.rng, &ops) };
+            if i % 12 == 7 {
+                // a plain-text pattern that OCCURS in the input, flags without g/i/x, a replacement with $-references:
+                // the engine expands them whatever shortcut the code takes for literal patterns
+                let words = ["hello world", "5 USD", "a,b,c", "foo bar foo", "ünï code", "x1 x2"];
+                input = ctx.rng.pick(&words).to_string();
+                let pat: String = { let ws: Vec<&str> = input.split(|c: char| c == ' ' || c == ',').filter(|w| !w.is_empty()).collect(); ctx.rng.pick(&ws).to_string() };
+                let repl = ctx.rng.pick(&["[$0]", "$$", "<$1>", "${0}!", "$0$0", "a$"]).to_string();
+                let fl = ctx.rng.pick(&["", "m", "s", "ms"]).to_string();
+                let rep = Op::Replace(pat, repl, fl);
+                ops = match ctx.rng.below(3) { 0 => vec![rep], 1 => vec![Op::Split(" ".into(), Range::Range(None, None, false)), Op::Map(vec![rep]), Op::Join(" ".into())], _ => vec![rep, Op::Upper] };
+                ctx.rep.bump("literal_pattern_dollar_replacement");
+            }
             let t = triple(ctx, &ops, &input, false);
             ctx.rep.eval();
             hist(ctx, &ops, &input, &t.real);
